@@ -10,7 +10,7 @@
 (* defective variants (Variant # "ok") must be rejected by TLC.               *)
 EXTENDS NatInt, TLC
 CONSTANT CMax
-CONSTANT Variant      \* "ok" | "trunc_first" (F2) | "halfdown_tie" | "cmp_sign" | "rem_loop" | "div_no_norm" | "gcd_twos" | "far_zero"
+CONSTANT Variant      \* "ok" | "trunc_first" (F2) | "halfdown_tie" | "cmp_sign" | "rem_loop" | "div_no_norm" | "gcd_twos" | "far_zero" | "floor_sign" (seed C15-e)
 S == INSTANCE FpDec WITH ZAdd <- IAdd, ZSub <- ISub, ZMul <- IMul, ZCmp <- ICmp, ZFloorDivMod <- IFloorDivMod, ZLit <- ILit,
        ZNeg <- INeg, ZAbs <- IAbs, ZSign <- ISign, ZIsEven <- IIsEven, ZMod5Is0 <- IMod5Is0, ZPow10 <- IPow10, ZPow2 <- IPow2,
        ZDigits <- IDigits, MaxFrac <- 2, CoeffBits <- 7, CoeffMax <- 127, CoeffMin <- -128, MaxDigits <- 3
@@ -144,6 +144,16 @@ GcdSpecial(numer, e) == LET u0 == Abs(numer)  utz == Tz(u0)  u == u0 \div 2^utz 
 ImplRatio == IF xf = 0 \/ xc = 0 THEN <<xc, 1>>
              ELSE LET g == GcdSpecial(xc, xf) IN <<TDiv(xc, g), 10^xf \div g>>
 RatioRefines == ImplRatio = S!Ratio(X)
+
+(* ---- unops.rs: floor / ceil via truncating divmod + sign tests, trunc, fract ---- *)
+DivFloor(a, b) == LET q == TDiv(a, b)  r == TRem(a, b) IN
+                  IF (r > 0 /\ b < 0) \/ ((IF Variant = "floor_sign" THEN a < 0 ELSE r < 0) /\ b > 0) THEN q - 1 ELSE q
+DivCeil(a, b) == LET q == TDiv(a, b)  r == TRem(a, b) IN IF (r > 0 /\ b > 0) \/ (r < 0 /\ b < 0) THEN q + 1 ELSE q
+UnaryRefines ==
+  /\ (IF xf = 0 THEN xc ELSE DivFloor(xc, 10^xf)) = S!FloorVal(X)
+  /\ (IF xf = 0 THEN xc ELSE DivCeil(xc, 10^xf)) = S!CeilVal(X)
+  /\ (IF xf = 0 THEN xc ELSE TDiv(xc, 10^xf)) = S!TruncVal(X)
+  /\ (IF xf = 0 THEN 0 ELSE TRem(xc, 10^xf)) = S!FractCoeff(X)
 
 (* ---- tightness of the oracle (non-vacuity): where the transcription returns a value, the predicate must   *)
 (* ---- reject the neighbouring coefficients at the same scale, and the failure signal (unless the value is  *)
